@@ -21,7 +21,7 @@ rows = []
 if "--merge" in sys.argv:
     items = []
 for idx, (name, prop, patch, origin) in enumerate(items):
-    if sel and not any(s in name for s in sel):
+    if sel and not any((s[:-1] == name) if s.endswith('$') else (s in name) for s in sel):
         continue
     if shard and idx % int(shard.split("/")[1]) != int(shard.split("/")[0]):
         continue
@@ -39,21 +39,47 @@ for idx, (name, prop, patch, origin) in enumerate(items):
         t0 = time.time()
         r = subprocess.run(["./check", prop, "quick"], cwd=V, env=dict(os.environ, VERIF_REPO=wt), capture_output=True, text=True)
         subs = sorted(set(re.findall(r"^  \[([a-z_0-9]+)/", r.stdout, re.M)))
-        rows.append((name, prop, origin, {0: "MISSED", 1: "caught", 2: "harness error"}.get(r.returncode, str(r.returncode)), ", ".join(subs), f"{time.time() - t0:.0f}s"))
+        verdict = {0: "MISSED", 1: "caught", 2: "harness error"}.get(r.returncode, str(r.returncode))
+        if verdict == "caught" and "VIOLATION property=" not in r.stdout:
+            verdict = "harness error (exit 1 without a VIOLATION line)"
+        rows.append((name, prop, origin, verdict, ", ".join(subs), f"{time.time() - t0:.0f}s"))
     finally:
-        subprocess.run([sys.executable, "-c", "from vf import env; env.clean_scratch_build()"], cwd=V, env=dict(os.environ, VERIF_REPO=wt, PYTHONPATH=V))
+        subprocess.run(["/venv/bin/python", "-c", "from vf import env; env.clean_scratch_build()"], cwd=V, env=dict(os.environ, VERIF_REPO=wt, PYTHONPATH=V))
         subprocess.run(["git", "-C", "/repo", "worktree", "remove", "--force", wt])
     print(rows[-1], flush=True)
+outk = next((a[6:] for a in sys.argv[1:] if a.startswith("--out=")), None)          # --out=name : dump the rows of a selected re-run to .work/audit.name.json
+if outk:
+    os.makedirs(os.path.join(V, ".work"), exist_ok=True)
+    json.dump(rows, open(os.path.join(V, ".work", f"audit.{outk}.json"), "w"))
 if shard:
     os.makedirs(os.path.join(V, ".work"), exist_ok=True)
     json.dump(rows, open(os.path.join(V, ".work", f"audit.{shard.split('/')[0]}.json"), "w"))
 elif "--merge" in sys.argv:
-    rows = sorted(sum((json.load(open(f)) for f in glob.glob(os.path.join(V, ".work", "audit.*.json"))), []), key=lambda r: r[0])
+    byname = {}
+    for f in sorted(glob.glob(os.path.join(V, ".work", "audit.*.json")), key=lambda f: (os.path.basename(f).startswith("audit.re"), f)):
+        for r in json.load(open(f)):
+            byname[r[0]] = r                      # a later re-run (audit.re*.json) replaces the row of the first pass
+    def _neutralised(name):
+        mp = os.path.join(V, name, "meta.json")
+        return name.startswith("seeded/") and os.path.exists(mp) and json.load(open(mp)).get("neutralised_by")
+    rows = sorted((r for n, r in byname.items() if not _neutralised(n)), key=lambda r: r[0])
 if ("--merge" in sys.argv) or (not sel and not shard):
     with open(os.path.join(V, "MUTATION_AUDIT.md"), "w") as f:
         f.write("# Sensitivity audit (quick tier, VERIF_SEED=1)\n\nEvery change below compiles and passes the repository's own test-suite (no new failure against the sandbox baseline).\n"
                 "`caught` = the property's quick check exits 1 with a VIOLATION line on a scratch worktree carrying the change.\n\n| change | property | origin | quick check | sub-checks that fired | wall |\n|---|---|---|---|---|---|\n")
+        stale = 0
         for r in rows:
+            r = list(r)
+            if r[3] == "patch no longer applies":
+                stale += 1
+                mp = os.path.join(V, r[0], "meta.json") if r[0].startswith("seeded/") else None
+                if mp and os.path.exists(mp):
+                    m = json.load(open(mp))
+                    r[3] = (f"patch conflicts with later fix commits on the same lines; when verified at {m.get('verified_at_repo_commit', '?')}: "
+                            + ("caught by " + ", ".join(m.get("caught_by") or []) if m.get("caught_by") else "see meta.json"))
+                else:
+                    r[3] = "patch conflicts with later fix commits on the same lines; caught in the audits run before those commits (git log -p MUTATION_AUDIT.md)"
             f.write("| " + " | ".join(r) + " |\n")
         c = sum(1 for r in rows if r[3] == "caught")
-        f.write(f"\n{c} of {len(rows)} caught.\n")
+        f.write(f"\n{c} of {len(rows) - stale} applicable changes caught on the current tree; {stale} older patches no longer apply to it (each was caught at the commit it was "
+                "verified at, see the row).  Not listed: changes whose meta.json carries `neutralised_by` (a later repair of the tree made them harmless).\n")
